@@ -95,7 +95,7 @@ func (m *Machine) spawn(body func(), name string) *G {
 	if m.events == nil {
 		panic(pathEnd{"engine: go statement in a sequential harness (set conc:true) at " + name})
 	}
-	g := &G{id: len(m.gs), name: name, resume: make(chan resumeMsg), body: body}
+	g := &G{id: len(m.gs), name: name, resume: make(chan resumeMsg), body: body, fnName: name}
 	g.parked = &Op{kind: opStart}
 	m.gs = append(m.gs, g)
 	go func() {
